@@ -83,6 +83,19 @@ def run(ctx):
     for name, txt in operator_unary_shapes(refgrammar.Gen(rng, kws, exclude=excl)):
         cases.append({'src': 'grammar', 'name': name, 'text': f'PROGRAM pp0\nVAR rr0 : INT; END_VAR\nrr0 := {txt};\nEND_PROGRAM\n',
                       'feats': frozenset(['operator-shape:' + name])})
+    # statement shapes that a printer could be tempted to write in another way: an ELSE (ELSIF, CASE ELSE, loop body) that holds
+    # exactly one IF / CASE / loop, with and without further branches, empty THEN branches
+    inner = ['IF b THEN x := 2; END_IF;', 'IF b THEN x := 2; ELSE x := 3; END_IF;', 'IF b THEN ELSE x := 3; END_IF;',
+             'IF b THEN x := 2; ELSIF c THEN x := 3; END_IF;', 'CASE x OF 1: x := 2; END_CASE;', 'WHILE b DO x := 2; END_WHILE;',
+             'REPEAT x := 2; UNTIL b END_REPEAT;', 'FOR x := 1 TO 2 DO y := 1; END_FOR;']
+    outer = ['IF a THEN x := 1; ELSE {i} END_IF;', 'IF a THEN {i} END_IF;', 'IF a THEN x := 1; ELSIF d THEN {i} END_IF;',
+             'IF a THEN x := 1; ELSIF d THEN x := 5; ELSE {i} END_IF;', 'IF a THEN x := 1; ELSE {i} x := 4; END_IF;', 'IF a THEN ELSE {i} END_IF;',
+             'CASE x OF 1: x := 1; ELSE {i} END_CASE;', 'CASE x OF 1: {i} END_CASE;', 'WHILE a DO {i} END_WHILE;', 'REPEAT {i} UNTIL a END_REPEAT;',
+             'FOR y := 1 TO 2 DO {i} END_FOR;']
+    for oi, o in enumerate(outer):
+        for ii, i in enumerate(inner):
+            cases.append({'src': 'grammar', 'name': f'shape{oi}.{ii}', 'text': 'PROGRAM pp0\nVAR a : BOOL; b : BOOL; c : BOOL; d : BOOL; x : INT; y : INT; END_VAR\n' + o.format(i=i) + '\nEND_PROGRAM\n',
+                          'feats': frozenset([f'statement-shape:{oi}.{ii}'])})
     # the literal space of C09 (every literal the parser must accept), each as an initial value
     from . import c09
     for (ty, lit, exp, kind) in c09.int_cases() + c09.real_cases() + c09.dur_cases() + c09.tod_cases() + c09.date_cases() + c09.str_cases():
